@@ -63,7 +63,7 @@ PROPS = {
             {"stream": "session", "n_quick": 400, "n_thorough": 40000, "timeout_quick": 900, "timeout_thorough": 6000},
         ],
         "trusted": BER_TRUST,
-        "assumptions": ["filters: the theorem gives the RFC 4515 string of the client's filter tree (C01_filter_roundtrip); that go-ldap's CompileFilter maps that string back to the same bytes is checked per generated filter by the harness, not proved"],
+        "assumptions": ["filters: the theorem gives the RFC 4515 string of the client's filter tree (C01_filter_roundtrip) and that this string determines the tree (C01_filter_faithful, for filters within the RFC grammar); that go-ldap's CompileFilter maps that string back to the same bytes is checked per generated filter by the harness, not proved"],
     },
     "C03": {
         "lean": ["GldapModel.Props.C03", "GldapModel.Props.Session", "GldapModel.Props.FilterSession"],
@@ -210,7 +210,10 @@ PROPS = {
     "C12": {
         "lean": ["GldapModel.Props.C12"], "audit": "GldapModel/Audit/C12.lean",
         "inventory": LIFECYCLE_FUNCS,
-        "streams": [{"stream": "c12", "n_quick": 30, "n_thorough": 1500, "timeout_quick": 900, "timeout_thorough": 6000}],
+        "streams": [{"stream": "c12", "n_quick": 30, "n_thorough": 1500, "timeout_quick": 900, "timeout_thorough": 6000},
+                    # every ending of a connection with handlers in flight, incl. clients that reuse one message id (corpus): at
+                    # the end of each scenario the server is stopped and must be quiescent
+                    {"stream": "c08", "n_quick": 8, "n_thorough": 200, "timeout_quick": 900, "timeout_thorough": 6000}],
         "trusted": RUNTIME_TRUST, "assumptions": [],
     },
     "C17": {
